@@ -446,7 +446,7 @@ Section Tie.
   Proof. reflexivity. Qed.
   Lemma PConcatenate_init_src f inputs : construct f CConcatenate [inputs] = src_PConcatenate_init (reset f) value f inputs.
   Proof. reflexivity. Qed.
-  Lemma PArrayIndex_reset_src f l i : reset (S f) (PArrayIndex l i) = src_PArrayIndex_reset (reset f) value f l i.
+  Lemma PArrayIndex_reset_src f l i e : reset (S f) (PArrayIndex l i e) = src_PArrayIndex_reset (reset f) value f l i e.
   Proof. reflexivity. Qed.
   Lemma PArrayIndex_init_src f l i : construct f CArrayIndex [l; i] = src_PArrayIndex_init (reset f) value f l i.
   Proof. reflexivity. Qed.
@@ -611,7 +611,7 @@ Section Tie.
         | PReset pattern trigger => src_PReset_reset (reset f) value f pattern trigger
         | PIndexOf l i => src_PIndexOf_reset (reset f) value f l i
         | PConcatenate inputs pos => src_PConcatenate_reset (reset f) value f inputs pos
-        | PArrayIndex l i => src_PArrayIndex_reset (reset f) value f l i
+        | PArrayIndex l i e => src_PArrayIndex_reset (reset f) value f l i e
         | PDictKey d k => src_PDictKey_reset (reset f) value f d k
         | PDict d => src_PDict_reset (reset f) value f d
         | _ => reset fuel p
